@@ -13,6 +13,9 @@ pub enum BroCatliResult {
 }
 
 const NUM_STREAM_HEADER_BYTES: usize = 5;
+// set in BroCatli::window_size when the emitted header has the large-window form: later members
+// have to agree, because the form decides the distance alphabet all members are decoded with
+const LARGE_WINDOW_FLAG: u8 = 0x80;
 
 #[derive(Clone, Copy)]
 struct NewStreamData {
@@ -241,7 +244,7 @@ impl BroCatli {
             last_byte_sanitized: false,
             any_bytes_emitted: false,
             new_stream_pending: None,
-            window_size: log_window_size,
+            window_size: log_window_size | if log_window_size > 24 { LARGE_WINDOW_FLAG } else { 0 },
         }
     }
 
@@ -326,15 +329,19 @@ impl BroCatli {
             };
             if self.window_size == 0 {
                 // parse window size and just copy everything
-                self.window_size = window_size;
+                self.window_size = window_size | if window_offset == 14 { LARGE_WINDOW_FLAG } else { 0 };
                 assert_eq!(self.last_byte_bit_offset, 0); // we are first stream
                 out_bytes[*out_offset] = new_stream_pending.bytes_so_far[0];
                 new_stream_pending.num_bytes_written = Some(1);
                 self.any_bytes_emitted = true;
                 *out_offset += 1;
             } else {
-                if window_size > self.window_size {
+                if window_size > (self.window_size & !LARGE_WINDOW_FLAG) {
                     return BroCatliResult::WindowSizeLargerThanPreviousFile;
+                }
+                if (window_offset == 14) != ((self.window_size & LARGE_WINDOW_FLAG) != 0) {
+                    // coded for the other distance alphabet: would not decode behind this header
+                    return BroCatliResult::BrotliFileNotCraftedForConcatenation;
                 }
                 let mut realigned_header: [u8; NUM_STREAM_HEADER_BYTES + 1] =
                     [self.last_bytes[0], 0, 0, 0, 0, 0];
